@@ -100,14 +100,20 @@ def sample_payload_len(u, lem, cx, b, e):
     y = x[2][0]
     while y[0] == "ref":
         y = y[1]
-    if not (y[0] in ("refplace", "load") and isinstance(y[1], str) and y[1].endswith(".data")):
+    if not (y[0] in ("refplace", "load") and isinstance(y[1], str)):
         return False
-    owner = place_owner_type(u, b, y[1][:-len(".data")])
-    if owner is None:
+    alts = [a_ for a_ in y[1].split("|") if not a_.startswith("_")]
+    if not alts or not all(a_.endswith(".data") for a_ in alts):
         return False
-    if owner not in _SS:
-        _SS[owner] = guarded_pushes(u, lem, owner)
-    return _SS[owner]
+    for a_ in alts:
+        owner = place_owner_type(u, b, a_[:-len(".data")])
+        if owner is None:
+            return False
+        if owner not in _SS:
+            _SS[owner] = guarded_pushes(u, lem, owner)
+        if not _SS[owner]:
+            return False
+    return True
 
 
 def place_owner_type(u, b, path):
